@@ -257,7 +257,12 @@ func (c *Ctx) foldNextFrame(rule string) ([]nfPath, *readerLayout) {
 			}
 			m.Models["callback:OnIntermediate"] = func(cl *fold.Call) fold.Val {
 				cl.M.Emit(fold.Effect{Kind: "call", Name: "OnIntermediate", Args: cl.Args})
-				return errChoice(cl.M, "inter.err", "inter-error")
+				e := errChoice(cl.M, "inter.err", "inter-error", "global:io.EOF")
+				if c.errName(e) == "global:io.EOF" {
+					// the handler hit the end of the stream inside the payload
+					cl.M.Store(fold.Ref{O: recv, Path: []int{L.raw, 1}}, fold.Int{Lo: 1, Hi: fold.MaxInt64, Name: "left"})
+				}
+				return e
 			}
 			m.Models["callback:OnContinuation"] = func(cl *fold.Call) fold.Val {
 				cl.M.Emit(fold.Effect{Kind: "call", Name: "OnContinuation", Args: cl.Args})
@@ -817,9 +822,14 @@ func readerNextFrameRules(c *Ctx, prop string) {
 			if np.in.onInter && len(np.p.Calls("OnIntermediate")) != 1 {
 				problems = append(problems, "OnIntermediate is not called exactly once")
 			}
-			if ie := np.p.Chose("inter.err"); ie > 0 {
+			if ie := np.p.Chose("inter.err"); ie == 1 {
 				if np.retErr != "inter-error" {
 					problems = append(problems, "OnIntermediate error is not returned")
+				}
+				continue
+			} else if ie == 2 {
+				if np.retErr == "nil" || np.retErr == "global:io.EOF" {
+					problems = append(problems, "the control handler hit io.EOF inside the payload of an intermediate control frame and NextFrame returns "+np.retErr+": read-until-EOF helpers take the cut message for a complete one")
 				}
 				continue
 			}
